@@ -316,7 +316,7 @@ func runC01(e *Engine, r *Report, tier string) {
 				if e.notYetVotedGuard(ap) {
 					r.Ok("R4", "votes-append", e.InstrPos(ap), fmt.Sprintf("0x23 has %d tx-reachable deleter(s); append guarded by a not-yet-voted test", len(del23)))
 				} else {
-					r.Fail("R4", "votes-append", e.InstrPos(ap), "0x23 can be deleted ("+e.FnKey(del23[0].Caller)+") while votes persist, and the vote append is not guarded by a not-yet-voted test: an oracle can be counted twice")
+					r.Fail("R4", "votes-append", e.InstrPos(ap), "0x23 can be deleted ("+e.FnKey(del23[0].Caller)+") while votes persist, and the vote append is not guarded by a membership test of the appended value itself in the vote list: an oracle can be counted twice")
 				}
 			} else {
 				r.Ok("R4", "votes-append", e.InstrPos(ap), "no tx-reachable deleter of 0x23")
@@ -494,14 +494,48 @@ func (e *Engine) observedFalseGuard(at ssa.Instruction) bool {
 	return false
 }
 
+// appendedElems: elements e1.. of a store `x.F = append(x.F, e1, ...)`.
+func appendedElems(st *ssa.Store) []ssa.Value {
+	c, ok := stripConv(st.Val).(*ssa.Call)
+	if !ok || callName(c) != "append" || len(c.Call.Args) != 2 {
+		return nil
+	}
+	sl, ok := c.Call.Args[1].(*ssa.Slice)
+	if !ok {
+		return nil
+	}
+	arr, ok := sl.X.(*ssa.Alloc)
+	if !ok || arr.Referrers() == nil {
+		return nil
+	}
+	var out []ssa.Value
+	for _, r := range *arr.Referrers() {
+		if ia, ok := r.(*ssa.IndexAddr); ok && ia.Referrers() != nil {
+			for _, rr := range *ia.Referrers() {
+				if s2, ok := rr.(*ssa.Store); ok && s2.Addr == ssa.Value(ia) {
+					out = append(out, s2.Val)
+				}
+			}
+		}
+	}
+	return out
+}
+
 // notYetVotedGuard: a dominating guard with negative polarity whose condition is a bool call taking (a value derived
-// from field Votes, ...) — slices.Contains(att.Votes, x) or a helper of the same shape.
+// from field Votes, needle) — slices.Contains(att.Votes, x) or a helper of the same shape — where the needle is the
+// very expression that is appended (testing membership of some other value does not prevent a duplicate).
 func (e *Engine) notYetVotedGuard(at ssa.Instruction) bool {
+	var elems []ssa.Value
+	if st, ok := at.(*ssa.Store); ok {
+		elems = appendedElems(st)
+	}
 	for _, g := range GuardsOf(at) {
 		ci, ok := NormCond(g)
 		if !ok || ci.Call == nil || !strings.HasPrefix(ci.Op, "!call:") {
 			continue
 		}
+		overVotes := false
+		var needles []ssa.Value
 		for _, a := range callArgs(ci.Call) {
 			res := e.Slice(a, SliceOpts{MaxDepth: 4}, func(v ssa.Value) Verdict {
 				if fa, ok := v.(*ssa.FieldAddr); ok {
@@ -512,8 +546,31 @@ func (e *Engine) notYetVotedGuard(at ssa.Instruction) bool {
 				return Continue
 			})
 			if res.AnyAccepted() {
-				return true
+				overVotes = true
+			} else {
+				needles = append(needles, a)
 			}
+		}
+		if !overVotes {
+			continue
+		}
+		if len(elems) == 0 {
+			return true // shape of the append not resolved: keep the weaker form
+		}
+		all := true
+		for _, el := range elems {
+			hit := false
+			for _, nd := range needles {
+				if vkey(nd, 0) == vkey(el, 0) || SameExpr(nd, el, 6) {
+					hit = true
+				}
+			}
+			if !hit {
+				all = false
+			}
+		}
+		if all {
+			return true
 		}
 	}
 	return false
